@@ -42,7 +42,7 @@ func init() {
 	mc.Register(&mc.Property{
 		ID:    "C07",
 		Level: "fault_enumeration",
-		Rule: "E3 fault enumeration: (truncation) every frame of a 40-frame alphabet (4 message kinds × body lengths 0..200) × EVERY cut point k < len(frame) × reader chunkings {whole, 1 byte at a time; thorough: every single extra deviation}, and four frames with bodies of 1..3 MiB × cut points within ±1 of m·2^p (p = 9..22, m = 1..3, measured from the frame and from the body start) × {whole, 4 KiB, 64 KiB chunks}: never success, n = k, cause io.EOF for k=0, io.ErrUnexpectedEOF otherwise, either one for k=32; " +
+		Rule: "E3 fault enumeration: (truncation) every frame of a 40-frame alphabet (4 message kinds × body lengths 0..200) × EVERY cut point k < len(frame) × reader chunkings {whole, 1 byte at a time, and every chunking with ≤1 (thorough ≤2) extra deviations: short read at any byte, data together with io.EOF, one empty read}, and four frames with bodies of 1..3 MiB × cut points within ±1 of m·2^p (p = 9..22, m = 1..3, measured from the frame and from the body start) × {whole, 4 KiB, 64 KiB chunks}: never success, n = k, cause io.EOF for k=0, io.ErrUnexpectedEOF otherwise, either one for k=32; " +
 			"(corrupt header, in a memory-limited worker process) header-size field × body-size field alphabets (0, len±1, 2^31, 2^32, 2^40, 2^47, 2^48, 2^62, 2^63-1, 2^63, 2^63+1, 2^64-1 …) × version bytes {ASCII, 0xff, NUL} × {0, 5, all} body bytes present: header size ≠ 32 ⇒ ErrInvalidHeaderSize after exactly 32 bytes; otherwise success iff the declared body is completely present; never a panic, never a dead process; ReadHeader on every prefix 0..40 of arbitrary bytes returns normally; " +
 			"(writer faults) every frame × EVERY byte budget k ≤ len(frame) × {partial write with error, refusal with count 0}: Marshal returns that error and the count of accepted bytes, which are exactly frame[:count]; (read errors) a non-EOF error injected at every offset, alone or together with the last bytes, under whole and 1-byte chunkings: no success unless the frame was delivered completely, n = bytes delivered. A case is one (frame, fault point, mode); non-trivial when the fault point is inside the frame (0 < k < len).",
 		Assumptions: []string{
@@ -401,14 +401,14 @@ func c07Run(c *mc.Ctx) {
 					nontriv++
 				}
 			}
-			if c.Thorough {
+			{
 				n := int64(0)
-				st := mc.ExploreDev(1, func(e *mc.Env) {
+				st := mc.ExploreDev(c.Pick(1, 2), func(e *mc.Env) {
 					n++
-					if e.Deviations() == 0 {
-						return // the default execution was judged above
-					}
 					g, w := c07Trunc(f, k, e, 0)
+					if e.Deviations() == 0 {
+						return // the default execution was judged above; it only records the choice points
+					}
 					if g != w {
 						c.Fail(1<<48|int64(fi)<<32|int64(k)<<12|n, "truncation", "truncation", c07Case{Frame: &fc, Cut: k, Choices: append([]int(nil), e.Choices...)}, g, w)
 					}
